@@ -24,6 +24,10 @@ def shape(nodes):
             out.append(["for", n.var_name, str(n.count), shape(n.body)])
         elif k == "BreakStmt":
             out.append(["break"])
+        elif k == "ContinueStmt":
+            out.append(["continue"])
+        elif k == "ReturnStmt" and n.expr is None:
+            out.append(["return"])
         elif k == "SerialWrite":
             out.append(["write", str(n.value)])
         elif k == "Sleep":
@@ -41,6 +45,18 @@ def main():
     defaults = {t: P._default_value_for_type(P._cpp_type(t)) for t in ("int", "float", "bool", "String")}
     cpp = {t: P._cpp_type(t) for t in ("int", "float", "bool", "String")}
     bin_tokens = {k.__name__: v for k, v in P._BIN.items()}
+    # the text of `x <op>= rhs` as the current parser builds it: parser._emit_binop(op, x, rhs, helpers) where it exists
+    # (infix token, helper call, or None when the operator is rejected), `(x tok rhs)` before that function existed
+    bin_forms = {}
+    for k, v in P._BIN.items():
+        fn = getattr(P, "_emit_binop", None)
+        if fn is None:
+            bin_forms[k.__name__] = "({l} " + v + " {r})"
+            continue
+        try:
+            bin_forms[k.__name__] = fn(k, "{l}", "{r}", set())
+        except ValueError:
+            bin_forms[k.__name__] = None
     for case in req["cases"]:
         r = {}
         try:
@@ -64,7 +80,7 @@ def main():
                 ctexts.append(None)
         r["consts"], r["ctexts"] = consts, ctexts
         out.append(r)
-    json.dump({"results": out, "defaults": defaults, "cpp": cpp, "bin": bin_tokens}, sys.stdout)
+    json.dump({"results": out, "defaults": defaults, "cpp": cpp, "bin": bin_tokens, "bin_forms": bin_forms}, sys.stdout)
 
 
 main()
